@@ -2,6 +2,8 @@
 //! cases and write one line per case (`fn<TAB>args...<TAB>impl-output`) for the Lean driver.
 mod alloc;
 mod common;
+mod c20_scn;
+mod c20;
 mod c14;
 mod c11;
 mod c19;
@@ -54,6 +56,7 @@ fn exec(prop: &str, f: &[String]) -> Option<String> {
         "C19" => c19::exec(f),
         "C11" => c11::exec(f),
         "C14" => c14::exec(f),
+        "C20" => c20::exec(f),
         _ => None,
     }
 }
@@ -67,6 +70,11 @@ fn main() {
     if args.len() == 3 && args[1] == "__worker" {
         std::panic::set_hook(Box::new(|_| {}));
         worker::worker_main(&args[2], exec_inproc);
+        return;
+    }
+    if args.len() == 2 && args[1] == "__c20child" {
+        // private sub-command: one child process per batch of shutdown scenarios (see c20.rs)
+        c20::child();
         return;
     }
     if args.len() == 2 && args[1] == "__c08child" {
@@ -120,6 +128,7 @@ fn main() {
         "C19" => c19::gen(&mut out, thorough, seed),
         "C11" => c11::gen(&mut out, thorough, seed),
         "C14" => c14::gen(&mut out, thorough, seed),
+        "C20" => c20::gen(&mut out, thorough, seed),
         other => {
             eprintln!("unknown property {}", other);
             std::process::exit(2);
